@@ -8,6 +8,7 @@ Input format (JSON-able, self-contained):
     K ::= "nop"                      Nop
         | "assign"                   Assign  v_<id> <- 1
         | "switch:<phase>"           SwitchPhase(next_phase=<phase>)           (target may be missing)
+        | "raise:<message>"          Raise(ValueError, <message>)              (the message may hold braces, percent signs, quotes)
         | "flag:<f>"                 Assign  <cond>f <- (u < 1)
         | "subflag:<f>"              Assign  <cond>f[0] <- 1                    (writes <cond>f as well)
         | "callflag:<f>,<g>,..."     AssignFunctionCall writing <cond>f, <cond>g, ...
@@ -55,6 +56,8 @@ def build_stmt(s):
         return lang.Assign(assignee="v_" + s["id"], assignee_subscript=(), expression=1, **kw)
     if kind.startswith("switch:"):
         return lang.SwitchPhase(next_phase=kind[7:], **kw)
+    if kind.startswith("raise:"):
+        return lang.Raise(ValueError, kind[6:], **kw)          # the text after the colon is the error message
     if kind.startswith("flag:"):
         return lang.Assign(assignee="<cond>" + kind[5:], assignee_subscript=(),
                            expression=Comparison(var("u"), "<", 1), **kw)
@@ -448,6 +451,13 @@ def bounded(payload):
     for sizes in kind_shapes:
         for inp in kind_family(sizes):
             run(inp, "kinds_%s" % "+".join(map(str, sizes)))
+    # statements whose printed text holds characters that matter to string formatting, in ill-formed methods of every kind
+    for msg in ("time step {dt} is too small", "unbalanced } brace", "100% done %s %(x)s", "quote \" and ' inside", "{0} {}"):
+        for deps, extra in ((["nowhere"], []), (["s1"], [{"id": "s1", "kind": "raise:" + msg, "deps": ["s0"]}]), ([], [])):
+            st = [{"id": "s0", "kind": "raise:" + msg, "deps": deps}] + extra
+            run({"phases": [{"name": "p", "next": "p", "stmts": st}], "initial": "p"}, "formatting_characters")
+            run({"phases": [{"name": "p", "next": "p", "stmts": st + [{"id": "s9", "kind": "switch:{gone}", "deps": []}]}],
+                 "initial": "p"}, "formatting_characters")
     # phase objects whose own name differs from the key they are stored under: targets are looked up among the keys
     for keys, objs in ((("primary",), ("main",)), (("primary", "other"), ("main", "primary")), (("a", "b"), ("b", "a"))):
         for tgt in sorted(set(keys) | set(objs) | {"nowhere"}):
